@@ -88,6 +88,10 @@ theorem optimize_width_keeps_values (t : Odf.Table.Tbl) (h : Odf.Table.Inv t) (x
     ∃ row', (Odf.Table.absT (tblOptimize t)).rows[y]? = some row' ∧ row'[x]? = some v :=
   tblOptimize_keeps t h x y v row hrow hv hne
 
+/-- … and optimising twice gives the very same run-length table as optimising once -/
+theorem optimize_width_idempotent (t : Odf.Table.Tbl) (h : Odf.Table.Inv t) : tblOptimize (tblOptimize t) = tblOptimize t :=
+  tblOptimize_idem t h
+
 example :
     let t := Odf.Table.parse [(0, 5)] [([(5, 1), (0, 4)], 1), ([(0, 5)], 1), ([(0, 5)], 2)]
     (tblOptimize t).rows.runs = [([(5, 1), (0, 1)], 1), ([(0, 2)], 1)] ∧ (tblOptimize t).cols.runs = [(0, 2)] := by
